@@ -5,13 +5,13 @@ serve: line protocol on stdin/stdout
   inflate <hex>                      -> ok <hex of inflated bytes> <hex of unused trailing data> | err <message>
   deflate <level> <strategy> <memlevel> <final> <chunk>...
       chunk = <hex>:<f>  (f = 0 no flush, 1 Z_SYNC_FLUSH, 2 Z_FULL_FLUSH after the chunk)
-      final = 1 Z_SYNC_FLUSH | 2 Z_FULL_FLUSH at the end
+      final = 1 Z_SYNC_FLUSH | 2 Z_FULL_FLUSH | 4 Z_FINISH (a BFINAL=1 block, RFC 7692 7.2.3.4) at the end
                                      -> ok <hex of raw deflate stream ending in 00 00 ff ff>
 selftest: exercises both commands once.
 """
 import sys, zlib, binascii
 
-FL = {0: None, 1: zlib.Z_SYNC_FLUSH, 2: zlib.Z_FULL_FLUSH}
+FL = {0: None, 1: zlib.Z_SYNC_FLUSH, 2: zlib.Z_FULL_FLUSH, 4: zlib.Z_FINISH}
 
 
 def inflate(data):
